@@ -63,6 +63,14 @@ pub fn gen_sess_run(check: &str, seed: u64, tier: Tier, with_probes: bool) -> Ru
                 let pos = w.below(ops.len() + 1);
                 ops.insert(pos, Op::new("union").t(leaf.clone()).t(other).i(w.below(2) as i64));
             }
+            if w.chance(1, 3) {
+                // an equation that makes one slot of the symmetric leaf itself redundant
+                let mut sub: Vec<S> = base.clone();
+                sub.remove(w.below(k));
+                let small = Tm::leaf(&format!("p{}", k - 1), sub);
+                let pos = w.below(ops.len() + 1);
+                ops.insert(pos, Op::new("union").t(leaf.clone()).t(small).i(w.below(2) as i64));
+            }
             if w.chance(1, 2) {
                 let mut v = base.clone();
                 v.swap(0, k - 1);
